@@ -161,17 +161,31 @@ TryIterLine(r) ==
                                rng |-> [hist |-> <<>>, pos |-> 0]]) @@ its
            /\ UNCHANGED <<run, ct, skip, diag>>
 
+\* Which kind of entry differs first (so that a property only answers for the entries it speaks about): the shape of the
+\* vector and the default of an input the header omits belong to C06 alone, as does the X of a signal without a column
+\* (for a virtual signal also to C14); values that come from the program's entries belong to whoever prescribes them.
+MinOf(S) == CHOOSE x \in S : \A y \in S : x <= y
+InputsCode(oi, pi) ==
+  IF Len(oi) # Len(pi) \/ \E k \in DOMAIN pi : oi[k].s # pi[k].s THEN "row.inputs.shape"
+  ELSE LET k == MinOf({j \in DOMAIN pi : oi[j].v # pi[j].v})
+       IN  IF ct.inIdx[k].ent = 0 THEN "row.inputs.default" ELSE "row.inputs"
+ExpectedCode(oo, po) ==
+  LET k == MinOf({j \in DOMAIN po : oo[j].exp # po[j].exp})
+      virt == ct.signals[ct.expIdx[k].sig].dir = "virt"
+  IN  IF ct.expIdx[k].ent = 0 THEN (IF virt THEN "row.expected.vdefault" ELSE "row.expected.default")
+      ELSE IF virt THEN "row.expected.virt" ELSE "row.expected"
+
 \* one next() call
 CompareRow(e, c, ret, r) ==
   \* ret.item is the predicted row, r.item the logged one; returns a code or "ok"
   LET p == ret.item
       o == r.item
   IN  IF o.line # p.line THEN "row.line"
-      ELSE IF ~SameSV(o.inputs, p.inputs) THEN "row.inputs"
+      ELSE IF ~SameSV(o.inputs, p.inputs) THEN InputsCode(o.inputs, p.inputs)
       ELSE IF ~ChangedSound(ct, o.inputs, e.lastIn) THEN "changed"
       ELSE IF Len(o.outputs) # Len(p.outputs) THEN "row.outputs.len"
       ELSE IF \E k \in DOMAIN p.outputs : o.outputs[k].s # p.outputs[k].s THEN "row.outputs.sig"
-      ELSE IF \E k \in DOMAIN p.outputs : o.outputs[k].exp # p.outputs[k].exp THEN "row.expected"
+      ELSE IF \E k \in DOMAIN p.outputs : o.outputs[k].exp # p.outputs[k].exp THEN ExpectedCode(o.outputs, p.outputs)
       ELSE IF ~AttrOutputs(ct, o.outputs, r.answer.outs)
            THEN (IF Misattributed(ct, o.outputs, r.answer.outs) THEN "attr.mis" ELSE "attr.output")
       ELSE IF \E k \in DOMAIN p.outputs : o.outputs[k].out # p.outputs[k].out THEN "row.output"
@@ -208,7 +222,8 @@ VirtualOutputs(c, outputs, outs) ==
 \* keeps following the implementation as long as it agrees about which row comes next; a disagreement about the
 \* control flow after an error is not a violation (the run is no longer followed), but whatever row IS yielded
 \* must still satisfy the predicates on the log alone and, where the rows agree, report the right outputs and vars().
-PostErrTolerated == {"item.kind", "item.class", "row.line", "row.inputs", "call.kind", "row.expected", "row.outputs.len",
+PostErrTolerated == {"item.kind", "item.class", "row.line", "row.inputs", "row.inputs.default", "row.inputs.shape", "call.kind",
+                     "row.expected", "row.expected.default", "row.expected.vdefault", "row.expected.virt", "row.outputs.len",
                      "row.outputs.sig", "rng.tape", "fault.lost", "fault.deviation", "fault.identity"}
 
 \* C02 on the log alone: the driver calls of one next() are accounted for by its item
@@ -259,7 +274,7 @@ NextLine(r) ==
   ELSE \* a driver call is due
        IF r.calls = <<>> THEN FlagT("item.kind")
        ELSE IF r.calls[1].kind # c.call.kind THEN FlagT("call.kind")
-       ELSE IF ~SameSV(r.calls[1].inputs, c.call.inputs) THEN FlagT("row.inputs")
+       ELSE IF ~SameSV(r.calls[1].inputs, c.call.inputs) THEN FlagT(InputsCode(r.calls[1].inputs, c.call.inputs))
        ELSE
          \E ret \in {NextReturn(ct, c.it, c.row, r.answer, rs, c.pos)} :
          LET p == ret.item
